@@ -736,6 +736,10 @@ def run(ctx: core.Context) -> int:
         for name in ('top', 'long'):
             if name in ctx.subs:
                 ctx.log(f'{name}:', ctx.sub(name).summary())
+    if not only or 'crossed' in only:
+        for r in core.pmap(w_crossed, core.split(crossed_cases(quick), ctx.jobs), ctx.jobs):
+            ctx.sub('crossed').merge(r)
+        ctx.log('crossed:', ctx.sub('crossed').summary())
     if not only or 'sched' in only:
         st = ctx.sub('sched')
         items = [('sched', c, b, 20000) for c, b in sched_configs(quick)]
@@ -779,8 +783,97 @@ def replay(v: core.Violation):
         res = run_top(c['top'])
     elif 'long' in c:
         res = run_long(c['long'])
+    elif 'crossed' in c:
+        res = run_crossed(c['crossed'])
     elif 'prefix' in c:
         res = run_case(c['params'], prefix=c['prefix'], fp=None)
     else:
         res = run_case(c['case'])
     return [m for ck, sig, m in res['viol'] if ck == v.check and core.canon_json(dict(sig, check=ck)) == v.key]
+
+
+# ---------------------------------------------------------------------------
+# crossed: both devices open channels towards each other AT THE SAME TIME, so that on each device the channel it opened
+# and the channel it accepted have crossed identifiers (X: local 0x40 / peer 0x41, Y: local 0x41 / peer 0x40).  One of
+# them is closed, then the survivor carries more SDUs than its credits in both directions: credits returned for the
+# survivor must still find it (the table of channels by the PEER's identifier is not the table by our own).
+# ---------------------------------------------------------------------------
+def crossed_cases(quick):
+    out = []
+    for kind in ('coc', 'enhanced'):
+        for close in ('opened_by_0', 'opened_by_1', None):
+            for closer in ((0, 1) if close else (None,)):
+                for credits in (1, 2) if quick else (1, 2, 3, 7):
+                    out.append({'kind': kind, 'close': close, 'closer': closer, 'credits': credits})
+    return out
+
+
+def run_crossed(case):
+    viol = []
+    sig = {'kind': 'le_coc' if case['kind'] == 'coc' else 'enhanced', 'phase': 'crossed_identifiers', 'closed': case['close'] or 'none'}
+    t = (64, 32, case['credits'])
+    with World(2) as w:
+        w.power_on()
+        conns = list(w.connect_le())  # [connection object on device 0, on device 1]
+        accepted = {0: [], 1: []}
+        for d in (0, 1):
+            w.devices[d].create_l2cap_server(mk_spec(t, PSM), accepted[d].append)
+
+        async def go(d):
+            if case['kind'] == 'coc':
+                return await conns[d].create_l2cap_channel(mk_spec(t, PSM))
+            return (await w.devices[d].l2cap_channel_manager.create_enhanced_credit_based_channels(conns[d], mk_spec(t, PSM), 1))[0]
+
+        tasks = [w.loop.create_task(go(d)) for d in (0, 1)]
+        w.loop.run_until(lambda: all(x.done() for x in tasks), horizon=w.loop.time() + 5.0)
+        w.settle()
+        if any(x.exception() for x in tasks) or not accepted[0] or not accepted[1]:
+            return {'viol': [('crossed_setup', dict(sig, what='simultaneous_open_failed'), f'simultaneous opens: {[repr(x.exception()) for x in tasks]} accepted {[len(accepted[0]), len(accepted[1])]}')], 'crossed': False}
+        # channel "opened_by_d": ends = (opener's object on device d, acceptor's object on device 1-d)
+        ch = {'opened_by_0': {0: tasks[0].result(), 1: accepted[1][0]}, 'opened_by_1': {1: tasks[1].result(), 0: accepted[0][0]}}
+        crossed = all(c[0].source_cid != c[0].destination_cid for c in ch.values())
+        if case['close']:
+            victim = ch.pop(case['close'])
+            dt = w.loop.create_task(victim[case['closer']].disconnect())
+            w.loop.run_until(dt.done, horizon=w.loop.time() + 5.0)
+            w.settle()
+            if not dt.done() or dt.exception():
+                viol.append(('crossed_close', dict(sig, what='close_failed'), f'closing {case["close"]} by device {case["closer"]}: {dt.exception()!r}' if dt.done() else 'disconnect() never completed'))
+        n_sdus = 4 * case['credits'] + 3
+        for name, ends in ch.items():
+            got = {0: [], 1: []}
+            ends[0].sink = got[0].append
+            ends[1].sink = got[1].append
+            sent = {0: [], 1: []}
+            for i in range(n_sdus):
+                for d in (0, 1):
+                    data = stream_bytes(d + 2 * (name == 'opened_by_1'), 400)[i * 9 : i * 9 + 20 + (i % 3) * 15]
+                    sent[d].append(bytes(data))
+                    ends[d].write(data)
+            w.loop.run_quiescent(max_steps=2000000)
+            drains = [w.loop.create_task(ends[d].drain()) for d in (0, 1)]
+            w.loop.run_quiescent(max_steps=200000)
+            for d in (0, 1):
+                rx = b''.join(bytes(x) for x in got[1 - d])  # a byte stream: write boundaries are not SDU boundaries
+                tx = b''.join(sent[d])
+                lsig = dict(sig, survivor=name, dir='opener_to_acceptor' if (name == f'opened_by_{d}') else 'acceptor_to_opener')
+                if rx != tx:
+                    what = 'transfer_incomplete' if rx == tx[: len(rx)] else 'stream_differs'
+                    viol.append(('crossed_stream', dict(lsig, what=what), f'{case}: channel {name} (device {d} local {ends[d].source_cid:#x} / peer {ends[d].destination_cid:#x}): {len(rx)} of {len(tx)} bytes arrived at the peer'))
+                elif not drains[d].done():
+                    viol.append(('crossed_stream', dict(lsig, what='drain_pending'), f'{case}: channel {name}: everything arrived but drain() of device {d} never completed'))
+        for msg, exc in w.loop.collect_exceptions():
+            viol.append(('exception', dict(sig, what='exception', exc=exc.split('(')[0]), f'{msg}: {exc}'))
+    return {'viol': viol, 'crossed': crossed}
+
+
+def w_crossed(cases):
+    st = core.Stats('crossed')
+    for case in cases:
+        r = run_crossed(case)
+        st.case(case, sample={'case': case, 'identifiers_crossed': r['crossed']})
+        if r['crossed']:
+            st.count('runs_with_crossed_identifiers')
+        for check, sg, msg in r['viol']:
+            st.violation(check, sg, msg, {'crossed': case})
+    return st
